@@ -32,7 +32,10 @@ def corpus_lines():
 
 
 def run(ck: Check):
-    ck.rule = ("cli: one program through the real `naija` binary in one of the three modes, compared byte for byte "
+    ck.rule = ("cli: one program through the real `naija` binary as a file, through --eval, through stdin in one write and "
+               "through stdin in 2-4 drain-paced writes (cuts between statements, inside tokens and multi-byte characters, "
+               "at the 8 KiB read chunk and its multiples; scripts of exactly 8192/16384 bytes and larger; programs past an "
+               "analysis cap whose result depends on lexical binding), compared byte for byte "
                "(stdout, exit status, empty stderr) with the library pipeline on three fresh separate arenas; seq: a "
                "sequence of 2-7 programs run twice through the in-process replica of the playground entry point, each "
                "result compared with the same program alone in a fresh process; histories: op sequences on the real "
@@ -60,11 +63,11 @@ def run(ck: Check):
         res = ck.corr("cli", corp, starts=STARTS, nvh_args=nvh_args(ck, naija), label="cli-corpus")
         classify(ck, corp, res)
     if quick:
-        stream(ck, naija, 300, 100, 600)
+        stream(ck, naija, 300, 100, 600, extra=["--big", 12, "--over", 9])
     else:
-        stream(ck, naija, 400, 300, 5000)
+        stream(ck, naija, 400, 300, 5000, extra=["--big", 36, "--over", 30])
         for shift in range(1, 9):
-            stream(ck, naija, 300, 150, 3000, seed_shift=1000 * shift, label=f"cli-seed+{1000 * shift}", extra=["--no-files"])
+            stream(ck, naija, 300, 150, 3000, seed_shift=1000 * shift, label=f"cli-seed+{1000 * shift}", extra=["--no-files", "--big", 18, "--over", 12])
         ck.leanchecker([MOD])
     if ck.is_broken():
         search(ck, naija)
@@ -112,6 +115,10 @@ def classify(ck, reqs, res):
                 ck.count("cli_requests")
                 if parts[2:5] != ["0", "0", "0"] or len(parts[5]) > 20:
                     ck.nontrivial_case(r)
+                if "@" in parts[1]:
+                    ck.count("cli_stdin_chunked_requests")
+                    if len(parts[5]) > 2 * 8192:
+                        ck.count("cli_stdin_chunked_over_8k")
                 if len([s for s in ck.samples if isinstance(s, dict) and s.get("kind") == "cli"]) < 3 and parts[2:5] != ["0", "0", "0"]:
                     ck.samples.append({"kind": "cli", "mode": parts[1], "facts(parse,resolveErr,runErr)": parts[2:5],
                                        "source": unhex(parts[5])[:400], "impl_answer": a})
@@ -151,34 +158,40 @@ def oracle_fails_on(ck, naija, line):
 
 
 def facts_of(ck, src):
-    p = sh([ck.nvh(), "cli", "expect", "eval", hexs(src)], timeout=120)
+    p = sh([ck.nvh(), "cli", "expect", "eval", "-"], inp=hexs(src).encode(), timeout=120)
     out = p.stdout.decode(errors="replace")
     m = re.search(r"facts=(\d+) (\d+) (\d+)", out)
     return " ".join(m.groups()) if m else "x x x"
 
 
 def shrink_cli(ck, naija, line):
-    """Delete source lines while the oracle still fails on the single request."""
+    """Delete blocks of source lines (halves, quarters, … single lines) while the oracle still fails on
+    the single request; bounded number of attempts (large over-limit programs stay large: their size is
+    what makes them fail)."""
     parts = line.split()
     mode, src = parts[1], unhex(parts[5])
     lines = src.split("\n")
-    changed = True
-    budget = 200
-    while changed and budget > 0:
-        changed = False
-        for i in range(len(lines)):
-            cand = lines[:i] + lines[i + 1:]
+    budget = 70
+    size = max(1, len(lines) // 2)
+    while size >= 1 and budget > 0:
+        i = 0
+        progressed = False
+        while i < len(lines) and budget > 0:
+            cand = lines[:i] + lines[i + size:]
+            if not cand:
+                i += size
+                continue
             csrc = "\n".join(cand)
             budget -= 1
             req = f"cli {mode} {facts_of(ck, csrc)} {hexs(csrc)}"
             bad, _ = oracle_fails_on(ck, naija, req)
             if bad:
-                lines = cand
-                line = req
-                changed = True
-                break
-            if budget <= 0:
-                break
+                lines, line, progressed = cand, req, True
+            else:
+                i += size
+        if size == 1 and not progressed:
+            break
+        size = size // 2 if size > 1 else (1 if progressed else 0)
     return line
 
 
@@ -254,7 +267,8 @@ def replay(ck, data):
             parts = r.split()
             print("--- source ---")
             print(unhex(parts[5]))
-            e = sh([ck.nvh(), "cli", "expect", parts[1] if parts[1] != "file" else "eval", parts[5]]).stdout.decode()
+            e = sh([ck.nvh(), "cli", "expect", "stdin" if parts[1].startswith("stdin") else "eval", "-"],
+                   inp=parts[5].encode()).stdout.decode()
             m = re.search(r"stdout=(\S+)", e)
             print("--- library pipeline expects (file name shown as <eval> for file mode) ---")
             print(e.split(" stdout=")[0])
